@@ -221,18 +221,8 @@ func (e *enc) currentNames() map[string]Val {
 		vars[k+"$0"] = v
 	}
 	for name, vs := range e.dbg {
-		for _, v := range vs {
-			if !e.inScope(v, name, e.curPos) {
-				continue
-			}
-			if in, ok := v.(ssa.Instruction); ok && in.Block() != nil && e.curBlock != nil {
-				if !in.Block().Dominates(e.curBlock) {
-					continue
-				}
-			}
-			if val, ok := e.vals[v]; ok {
-				vars[name] = val
-			}
+		if val, ok := e.pickNamed(name, vs, e.curBlock, false, e.curPos); ok {
+			vars[name] = val
 		}
 	}
 	return vars
